@@ -6,8 +6,10 @@ import (
 	"fmt"
 	"io"
 	"os"
+	"reflect"
 	"runtime"
 	"strings"
+	"sync"
 	"time"
 
 	"github.com/hedzr/is"
@@ -197,4 +199,25 @@ func Disturb(kind int) {
 		ch.SetContextKeys("rid")
 		ch.InfoContext(context.WithValue(ctx, "rid", "r-1"), "child disturbance", "k", []string{"a", "b"}) //nolint:staticcheck // string key on purpose
 	}
+}
+
+var manySitesOnce sync.Once
+
+// ManyCallSites lets the process see several thousand distinct call sites once (records handed to WriteThru
+// with distinct, valid program counters): whatever the package remembers per call site is then full, as it is
+// in a long-running program, for every case that follows.
+func ManyCallSites() {
+	manySitesOnce.Do(func() {
+		old := slog.GetFlags()
+		slog.SetFlags(BaseFlags | slog.Lcaller)
+		lg := slog.New("manysites").SetWriter(io.Discard).SetErrorWriter(io.Discard).SetLevel(slog.AlwaysLevel).SetJSONMode(true)
+		base := reflect.ValueOf(ManyCallSites).Pointer()
+		for i := 0; i < 6000; i++ {
+			func() {
+				defer func() { _ = recover() }() // a defect here shows in the cases that follow, through their own oracles
+				lg.WriteThru(context.Background(), slog.InfoLevel, time.Unix(1700000000, 0), base+uintptr(i), "another call site", nil)
+			}()
+		}
+		slog.SetFlags(old)
+	})
 }
